@@ -148,6 +148,67 @@ def ids_symbolic(ids: List[int], cut: int) -> bool:
     return delivered == [msgs[0], msgs[2]] and answers == [(ids[1], 3001)]
 
 
+# ------------------------------------------------------------------ (ii) interleavings (E3)
+def interleaved(sched: List[bool]) -> bool:
+    """
+    pre: len(sched) == P["K"]
+    post: _
+    """
+    from vf import cosched as CS
+    from vf.conode import CoNode
+    from crosshair.core import IgnoreAttempt
+    with untraced():
+        kinds = P["kinds"]
+        ids = [0x30000 + 5 * i for i in range(len(kinds))]
+        msgs = _stream(kinds, ids)
+        wire = b"".join(msgs)
+        node = CoNode(P["role"], lines=P.get("lines", False))
+        bounds = sorted(set(P["cuts"] + [len(wire)]))
+        prev, chunks = 0, []
+        for c in bounds:
+            if c > prev:
+                chunks.append(wire[prev:c])
+            prev = c
+        want = [m for k, m in zip(kinds, msgs) if k != "dwr"]
+        got = []
+
+        def consumer():
+            for _ in range(len(want)):
+                m = yield from node.d.get_message()
+                got.append(m.dump() if m is not None else None)
+
+        def network():
+            # the peer's later segments arrive at arbitrary moments (a scheduler decision each)
+            for ch in chunks[1:]:
+                yield
+                node.sock.inbox.append(ch)
+        s = CS.Sched(sched, max_preempt=P.get("maxp"))
+        s.spawn("A", consumer())
+        if P.get("network"):
+            node.sock.inbox.append(chunks[0])
+            s.spawn("N", network(), daemon=True)
+        else:
+            node.sock.inbox.extend(chunks)
+        s.spawn("R", node.reader(), daemon=True)
+        s.spawn("W", node.worker(), daemon=True)
+        s.spawn("S", node.machine(), daemon=True)
+        try:
+            s.run()
+        except CS.Prune:
+            raise IgnoreAttempt("schedule bound")
+        except CS.Deadlock as d:
+            reached()
+            if REPLAY: note(deadlock=d.who, delivered=len(got), expected=len(want), schedule="".join(x[0] for x in s.trace))
+            return False
+        except (LIB + (Exception,)) as e:
+            reached()
+            if REPLAY: note(raised=f"{type(e).__name__}: {e}", schedule="".join(x[0] for x in s.trace))
+            return False
+        reached()
+        if REPLAY: note(delivered=len(got), expected=len(want), schedule="".join(x[0] for x in s.trace))
+        return got == want
+
+
 def queries(tier, seed):
     t = 150 if tier == "quick" else 1800
     qs = [Q("native/bytewise", "bytewise", engine="py", cto=120, what="4 messages, one byte per read, both roles")]
@@ -160,6 +221,11 @@ def queries(tier, seed):
             qs.append(Q(f"segmented/{role}/{'-'.join(kinds)}/cuts{ncuts}", "segmented", {"role": role, "kinds": kinds, "ncuts": ncuts, "total": total}, cto=t, pto=t,
                         what=f"{role}: {kinds} ({total} bytes) cut at {ncuts} arbitrary position(s): every segmentation"))
         qs.append(Q(f"ids_symbolic/{role}", "ids_symbolic", {"role": role}, cto=t, pto=t, what=f"{role}: identifiers symbolic, one cut in the first 40 bytes"))
+    L1 = len(_app_req(0, 0x30000))
+    qs.append(Q("interleaved/aligned/P1", "interleaved", {"role": "CLIENT", "kinds": ["req", "req"], "cuts": [L1], "K": 48, "maxp": 1}, cto=t, pto=t,
+                what="reader / receive worker / state machine / consumer as coroutines, 2 requests in 2 message-aligned reads: every schedule with <= 1 preemption"))
+    qs.append(Q("interleaved/split/P1", "interleaved", {"role": "CLIENT", "kinds": ["req", "req"], "cuts": [10, L1 + 30], "K": 48, "maxp": 1}, cto=t, pto=t,
+                what="same, reads cut inside the first header and inside the second message: every schedule with <= 1 preemption"))
     return qs
 
 
